@@ -25,34 +25,4 @@ theorem ord_step {s s' : State} {l : Label} (ho : Ord s) (h : step s l = some s'
     | (rename_i hne; rw [if_neg (fun h => hne h.symm)]; simpa using ih)
     | (rename_i hne; rw [if_neg (fun h => hne h.symm)] at ih; simpa using ih)
 
-def Pre (s : State) : Prop :=
-  ∀ k, s.started k = s.processed k ∨ ∃ e, s.started k = s.processed k ++ [e]
-
-theorem pre_step {s s' : State} {l : Label} (hi : Inv s) (hp : Pre s) (h : step s l = some s') :
-    Pre s' := by
-  intro k
-  have ih := hp k
-  have h0 := hi.busy_started
-  have h1 := hi.started_spec
-  have h2 := hi.uniq
-  cases l <;> step_cases h <;> (try dsimp only)
-  all_goals grind [upd_apply, Pc.live_pending, Pc.live_spawned, Pc.live_waiting, Pc.live_busy, Pc.live_leaving]
-
-theorem ord_pre_run {s s' : State} {ls : List Label} (hi : Inv s) (ho : Ord s) (hp : Pre s)
-    (h : run s ls = some s') : Ord s' ∧ Pre s' := by
-  induction ls generalizing s with
-  | nil => simp [run, runWith] at h; exact h ▸ ⟨ho, hp⟩
-  | cons l ls ih =>
-    simp only [run, runWith] at h
-    split at h
-    · rename_i s1 hs1
-      exact ih (inv_step hi hs1) (ord_step ho hs1) (pre_step hi hp hs1) h
-    · cases h
-
-theorem ord_pre_reach {lim : Option Nat} {ls : List Label} {s : State} (h : Reach lim ls s) :
-    Ord s ∧ Pre s := by
-  refine ord_pre_run (inv_init lim) ?_ ?_ h
-  · intro k; simp [init, backlogEvs, handEvs]
-  · intro k; left; rfl
-
 end Kopf.C01
